@@ -60,7 +60,9 @@ def judge(run, rec, pid="C01"):
         if r[0] == "ood":
             run.case((key_base, j), nontrivial=False); run.count("out-of-domain:" + r[1][:30])
             # the model mirrors the VM also outside the domain (divzero / indexoob classes)
-            if j < len(mv) and j < len(i0) and mv[j][0] != i0[j][0]:
+            # (only for the two DEFINED failures; after an int overflow the values are outside every promise, e.g. Python
+            #  raises OverflowError converting a 300-digit int to float where IEEE arithmetic yields inf)
+            if r[1].startswith(("division by zero", "index out of range")) and j < len(mv) and j < len(i0) and mv[j][0] != i0[j][0]:
                 run.mismatch("vm-vs-model-outside-domain", inp, list(mv[j]), list(i0[j]))
             continue
         run.case((key_base, j), nontrivial=nt,
